@@ -347,6 +347,9 @@ def run(ctx, rep):
                 if "list_manipulations::sort_unique::" in name and any(_tail(x.name) == "dedup" and
                                                                          x.bb in b.reachable(c.bb) for x in b.calls):
                     r.ok(key, "followed by dedup: equal elements are merged, stability is moot", c.where())
+                elif _sorts_distinct_keys(b, c):
+                    r.ok(key, "sorts the key set of one map (strings, pairwise distinct): no ties, the result of an "
+                         "unstable sort is the same", c.where())
                 else:
                     r.bad(key, "unstable sort: ties do not keep arrival order", c.where())
     if n_unstable == 0:
@@ -356,6 +359,28 @@ def run(ctx, rep):
     P.evict(rep, lib)
     P.topn_adjacent(rep, lib)
     P.iterdir(rep, lib)
+
+
+def _sorts_distinct_keys(b, c):
+    """The slice being sorted holds nothing but the keys of one map (`m.keys().collect()`, cloned or not), and the keys
+    are strings: they are pairwise distinct and totally ordered, so no two compare equal."""
+    full = (c.full or "") + " " + " ".join(c.gargs or [])
+    if "std::string::String" not in full and "str" not in full:
+        return False
+    pr = Prov(b, common.LOOK + ("Iterator::collect", "Iterator::cloned", "Iterator::copied", "DerefMut>::deref_mut",
+                                "IntoIterator::into_iter", "Vec::<T, A>::as_mut_slice"))
+    at = [a for a in pr.origins(c.args[0]) if a[0] not in ("via", "op", "outparam")]
+    if not at:
+        return False
+    srcs = set()
+    for a in at:
+        if a[0] != "call":
+            return False
+        cc = b.call_at.get(a[1])
+        if cc is None or not (cc.name or "").endswith("::keys"):
+            return False
+        srcs.add(a[1])
+    return len(srcs) == 1
 
 
 def short(name):
